@@ -3,9 +3,7 @@
 Used identically by the history workers (newest Script of the edited buffer) and by the fresh
 oracle processes, so both sides are compared like with like.
 """
-import io
 import re
-import tokenize
 
 from . import canon
 
@@ -51,7 +49,17 @@ def _names_sorted(res, root):
 
 
 def _completion(c, root):
-    return [c.name, c.complete, c.type, canon.relpath(c.module_path, root), c.line, c.column]
+    """Names defined in the buffer carry their position; for names from other modules only the
+    spelling and type are compared (which of a stub / its Python twin is shown for an imported
+    name follows value-set order, i.e. the heap layout - C16's subject, not C08's)."""
+    mp = c.module_path
+    if mp is None or (root and str(mp).startswith(str(root))):
+        return [c.name, c.complete, c.type, canon.relpath(mp, root), c.line, c.column]
+    return [c.name, c.complete, c.type, '<other module>']
+
+
+def _sigs(lst):
+    return sorted((_sig(s) for s in lst), key=repr)
 
 
 def _sig(s):
@@ -72,6 +80,7 @@ def answers(script, text, root, refs=True):
     """-> (dict query-key -> canonical JSON answer, number of query evaluations).
     Only `script` (the newest Script of its path) is touched."""
     idents, slots, ends = probe_points(text)
+    lines = text.split('\n')
     out = {}
     n = 0
 
@@ -94,18 +103,20 @@ def answers(script, text, root, refs=True):
         put('infer@' + k, lambda: _names_sorted(script.infer(li, col), root))
         put('goto@' + k, lambda: _names_sorted(script.goto(li, col), root))
         put('help@' + k, lambda: [x[:8] + [d] for x, d in sorted(
-            ((_name(h, root), h.docstring()[:200]) for h in script.help(li, col)), key=repr)])
-        put('complete@%d:%d' % (li, c1),
-            lambda: [_completion(x, root) for x in script.complete(li, c1)])
+            ((_name(h, root), h.docstring(raw=True)[:200]) for h in script.help(li, col)), key=repr)])
+        if c0 > 0 and lines[li - 1][c0 - 1] == '.':
+            # attribute access: what the object offers (asked right after the dot)
+            put('complete@%d:%d' % (li, c0),
+                lambda: [_completion(x, root) for x in script.complete(li, c0)])
         if refs and (li, c0) in defs:
             put('refs@' + k, lambda: _names_sorted(script.get_references(li, col), root))
     for (li, col) in slots:
-        put('sig@%d:%d' % (li, col), lambda: [_sig(s) for s in script.get_signatures(li, col)])
+        put('sig@%d:%d' % (li, col), lambda: _sigs(script.get_signatures(li, col)))
     for (li, col) in ends:
         put('ctx@%d:%d' % (li, col), lambda: _name(script.get_context(li, col), root))
         put('complete@%d:%d' % (li, col),
             lambda: [_completion(x, root) for x in script.complete(li, col)])
-        put('sig@%d:%d' % (li, col), lambda: [_sig(s) for s in script.get_signatures(li, col)])
+        put('sig@%d:%d' % (li, col), lambda: _sigs(script.get_signatures(li, col)))
     return out, n
 
 
@@ -117,7 +128,7 @@ def cursor_answers(script, text, root):
     out['complete@%d:%d' % (li, col)] = _call(
         lambda: [_completion(x, root) for x in script.complete(li, col)])
     out['sig@%d:%d' % (li, col)] = _call(
-        lambda: [_sig(s) for s in script.get_signatures(li, col)])
+        lambda: _sigs(script.get_signatures(li, col)))
     return out, 2
 
 
